@@ -137,6 +137,13 @@ func slotOwnerOf(c *chk.Ctx, v ssa.Value) ssa.Value {
 			v = x.X
 		case *ssa.Field:
 			v = x.X
+		case *ssa.Call:
+			// a pure getter: the field of its receiver argument
+			if ir.GetterLoad(x) != ssa.Value(x) && len(x.Call.Args) == 1 {
+				v = x.Call.Args[0]
+				continue
+			}
+			return ir.NormCell(v)
 		default:
 			return ir.NormCell(v)
 		}
